@@ -16,6 +16,19 @@ thread_local! {
     /// `clone` / `clonefrom` operations (the harness itself clones queues for
     /// the consuming operations, which the model does not count)
     static CLONE_CB: Cell<bool> = const { Cell::new(false) };
+    static HASH_CB: Cell<bool> = const { Cell::new(false) };
+}
+
+/// `hfuse`: Hash::hash and Eq::eq of items are user callbacks too (the model
+/// does not count them: implementation-only runs)
+pub fn hash_callbacks(on: bool) {
+    HASH_CB.with(|c| c.set(on));
+}
+#[inline]
+fn hash_tick() {
+    if HASH_CB.with(|c| c.get()) {
+        fuse_tick();
+    }
 }
 
 pub fn clone_callbacks(on: bool) {
@@ -85,6 +98,7 @@ impl Clone for It {
 impl PartialEq for It {
     #[inline]
     fn eq(&self, o: &It) -> bool {
+        hash_tick();
         self.key == o.key
     }
 }
@@ -92,6 +106,7 @@ impl Eq for It {}
 impl Hash for It {
     #[inline]
     fn hash<S: Hasher>(&self, state: &mut S) {
+        hash_tick();
         self.key.hash(state)
     }
 }
